@@ -83,8 +83,9 @@ Steer(k)      == /\ More /\ k # el.v
                  /\ el' = [el EXCEPT !.v = k]
                  /\ UNCHANGED <<pl, held>>
                  /\ prog' = Log("Steer", "-", k, <<>>)
-\* ... or writes into the coefficient arrays of a dispersive element
-EditElem(k)   == /\ More /\ el.kind = "disp" /\ k # el.v
+\* ... or writes into the arrays the element keeps its state in (the coefficient arrays of a dispersive element, the angles of an
+\* angular one when they are held in arrays, e.g. 0-d views of a command vector)
+EditElem(k)   == /\ More /\ k # el.v
                  /\ el' = [el EXCEPT !.v = k]
                  /\ UNCHANGED <<pl, held>>
                  /\ prog' = Log("EditElem", "-", k, <<>>)
